@@ -81,3 +81,52 @@ func ZvC10_S2_History() {
 	}
 	vrt.Cover("C10/S2/end")
 }
+
+// ZvC10_LongRun: one long scenario beyond the height bound — 40 keys put in ascending or descending
+// order (the tree reaches height 3 or more), every second key removed, then Get of every key,
+// Traverse, Size and the height bound. Keys are concrete (nothing forks), values symbolic.
+func ZvC10_LongRun() {
+	const N = 40
+	desc := vrt.Choice(2) == 1
+	t := New[int, int]()
+	vals := make([]int, N+1)
+	for i := 1; i <= N; i++ {
+		k := i
+		if desc {
+			k = N + 1 - i
+		}
+		vals[k] = vrt.Int()
+		t.Put(k, vals[k])
+	}
+	vrt.Assert(t.Size() == N, "C10/long-run/Size-after-puts")
+	p := 1
+	for i := 0; i < t.Height(); i++ {
+		p *= 2
+	}
+	vrt.Assert(vrt.And(t.Height() >= 2, p <= N), "C10/long-run/height-at-most-log2-of-entries")
+	for k := 2; k <= N; k += 2 {
+		t.Remove(k)
+	}
+	vrt.Assert(t.Size() == N/2, "C10/long-run/Size-after-removes")
+	for k := 1; k <= N; k++ {
+		v, ok := t.Get(k)
+		if k%2 == 1 {
+			vrt.Assert(vrt.And(ok, v == vals[k]), "C10/long-run/Get-live-key")
+		} else {
+			vrt.Assert(!ok, "C10/long-run/Get-removed-key")
+		}
+	}
+	var gk, gv []int
+	t.Traverse(func(k, v int) { gk = append(gk, k); gv = append(gv, v) })
+	vrt.Assert(len(gk) == N/2, "C10/long-run/Traverse-visits-live-keys")
+	ok := true
+	for i := range gk {
+		ok = vrt.And(ok, gk[i] == 2*i+1, gv[i] == vals[2*i+1])
+	}
+	vrt.Assert(ok, "C10/long-run/Traverse-ascending-with-values")
+	// a removed key can be put again
+	y := vrt.Int()
+	t.Put(2, y)
+	v, found := t.Get(2)
+	vrt.Assert(vrt.And(found, v == y, t.Size() == N/2+1), "C10/long-run/re-put-of-a-removed-key")
+}
